@@ -48,12 +48,16 @@ def work(item):
     import random
     label, src, seed = item
     rng = random.Random(seed)
-    out = dict(label=label, cases=[], pairs=[], error=None)
+    out = dict(label=label, cases=[], pairs=[], error=None, nw=[])
     try:
         b = src if isinstance(src, dict) else bse.get_basis(src[0], version=src[1])
     except Exception as e:
         out['error'] = type(e).__name__
         return out
+    try:
+        out['nw'] = nwchem_cases(b, rng)
+    except Exception as e:
+        out['nw'] = [('harness-error', None, '%s: %s' % (type(e).__name__, e))]
     fmts = sorted(set(writers.get_writer_formats()) & set(readers.get_reader_formats()))
     has_shells = any('electron_shells' in el for el in b['elements'].values())
     libmol_name_ok = bool(re.match(r'^\d*[a-zA-Z][a-zA-Z0-9\-\+\*\(\)\[\]]*$', b['name']))
@@ -149,6 +153,105 @@ def work(item):
     return out
 
 
+
+# ---------------------------------------------------------------------------------------------------------
+# NWChem electron section at the token level: the Lean writer / reader models (Props/C03 nwchem_electron_roundtrip)
+# against writers/nwchem.py and readers/nwchem.py on the same lines
+# ---------------------------------------------------------------------------------------------------------
+def nw_tok(line, replace_d):
+    from basis_set_exchange.readers import helpers
+    if line[0].isalpha():
+        return {'h': line.split()}
+    return {'r': (helpers.replace_d(line) if replace_d else line).split()}
+
+
+def nw_real_read(sec):
+    from basis_set_exchange.readers import nwchem as rnw
+    bs = {}
+    try:
+        rnw._parse_electron_lines(list(sec), bs)
+    except Exception as e:
+        return ('err', type(e).__name__)
+    return ('ok', [[int(z), [dict(ftype=sh['function_type'], am=sh['angular_momentum'], exps=sh['exponents'], coefs=sh['coefficients'])
+                             for sh in el['electron_shells']]] for z, el in bs.items()])
+
+
+def nw_mutations(sec, rng):
+    """malformed / unusual streams derived from a written section"""
+    out = []
+    n = len(sec)
+    for kind in ('drop_line', 'dup_head', 'swap', 'garbage_token', 'no_end', 'row_first', 'head3', 'lower', 'short_row', 'head_only_block', 'bad_sym', 'bad_am', 'split_elements'):
+        m = list(sec)
+        try:
+            heads = [i for i, l in enumerate(m) if l[0].isalpha() and i > 0 and l.lower() != 'end']
+            rows = [i for i, l in enumerate(m) if not l[0].isalpha()]
+            if kind == 'drop_line':
+                del m[rng.randrange(n)]
+            elif kind == 'dup_head':
+                i = rng.choice(heads); m.insert(i, m[i])
+            elif kind == 'swap':
+                i, j = rng.randrange(n), rng.randrange(n); m[i], m[j] = m[j], m[i]
+            elif kind == 'garbage_token':
+                i = rng.choice(rows); t = m[i].split(); t[rng.randrange(len(t))] = rng.choice(['abc', '1.0.0', '12', '1e5', '.', '-.5D-3', '+1.', 'nan']); m[i] = ' '.join(t)
+            elif kind == 'no_end':
+                m = [l for l in m if l.lower() != 'end']
+            elif kind == 'row_first':
+                m.insert(1, m[rng.choice(rows)])
+            elif kind == 'head3':
+                i = rng.choice(heads); m[i] = m[i] + ' X'
+            elif kind == 'lower':
+                m = [l.lower() for l in m]
+            elif kind == 'short_row':
+                i = rng.choice(rows); t = m[i].split(); m[i] = ' '.join(t[:-1]) if len(t) > 1 else m[i]
+            elif kind == 'head_only_block':
+                i = rng.choice(heads); m.insert(i, 'H    S')
+            elif kind == 'bad_sym':
+                i = rng.choice(heads); t = m[i].split(); t[0] = rng.choice(['Xx', 'H1', 'Qq', 'end']); m[i] = '    '.join(t)
+            elif kind == 'bad_am':
+                i = rng.choice(heads); t = m[i].split(); t[-1] = rng.choice(['Q', 'SPX', 'j', 'sp', 'S1', 'ul']); m[i] = '    '.join(t)
+            elif kind == 'split_elements':
+                # the same element's shells in two separate places
+                i = rng.choice(heads); blk = [m[i]]
+                k = i + 1
+                while k < len(m) and not m[k][0].isalpha():
+                    blk.append(m[k]); k += 1
+                m = m[:-1] + blk + m[-1:]
+        except (IndexError, ValueError):
+            continue
+        m = [l for l in m if l.strip()]
+        if m:
+            out.append((kind, m))
+    return out
+
+
+def nwchem_cases(b, rng):
+    """[(what, request, expected)]"""
+    from basis_set_exchange import writers, manip, sort
+    from basis_set_exchange.readers import helpers
+    if not any('electron_shells' in el for el in b['elements'].values()):
+        return []
+    try:
+        text = writers.write_formatted_basis_str(b, 'nwchem')
+    except Exception:
+        return []
+    lines = helpers.prune_lines(text.splitlines(), '#')
+    ends = [i for i, l in enumerate(lines) if l.lower() == 'end']
+    if not ends or not lines[0].lower().startswith('basis'):
+        return []
+    sec = lines[:ends[0] + 1]
+    cases = []
+    # writer: the model takes the shells as the writer sees them after its own uncontract_spdf(1) / sort_basis
+    pb = sort.sort_basis(manip.uncontract_spdf(b, 1, True), False)
+    harm = 'CARTESIAN' if 'gto_cartesian' in pb['function_types'] else 'SPHERICAL'
+    els = [dict(z=int(z), shells=[dict(am=sh['angular_momentum'], exps=[x.strip() for x in sh['exponents']], coefs=[[x.strip() for x in c] for c in sh['coefficients']])
+                                  for sh in el['electron_shells']]) for z, el in pb['elements'].items() if 'electron_shells' in el]
+    cases.append(('write', dict(op='nwchem_write', harm=harm, els=els), [nw_tok(l, False) for l in sec]))
+    # reader on what was written, and on derived malformed streams
+    cases.append(('read', dict(op='nwchem_read', lines=[nw_tok(l, True) for l in sec]), nw_real_read(sec)))
+    for kind, m in nw_mutations(sec, rng):
+        cases.append(('read:' + kind, dict(op='nwchem_read', lines=[nw_tok(l, True) for l in m]), nw_real_read(m)))
+    return cases
+
 def run(ctx):
     bse = import_bse()
     R = Result('C03')
@@ -157,6 +260,7 @@ def run(ctx):
         g = genbasis.gen_basis(ctx.rng, kinds=ctx.rng.choice([None, ['highl', 'plain'], ['ecponly', 'ecp', 'plain'], ['pople', 'general']]))
         items.append(('gen%d' % i, g, 'g%d-%d' % (i, ctx.seed)))
     pairs = []
+    nw = []
     for i in range(0, len(items), 600):
         for out in pmap(work, items[i:i + 600]):
             if out['error']:
@@ -176,6 +280,7 @@ def run(ctx):
                 for rule, what, z in rec['bad']:
                     R.violation(rule, 'readers.' + rec['fmt'], what, w, fmt=rec['fmt'], lost_ecp_only=(z == 'lost-ecp-only'), **rec['facts'])
             pairs += out['pairs']
+            nw += [(out['label'],) + tuple(c) for c in out['nw']]
             R.sample(dict(basis=out['label'], cases=len(out['cases'])))
     if ctx.model_ok and pairs:
         pairs = pairs[:4000]
@@ -188,6 +293,31 @@ def run(ctx):
             if a['same'] != py:
                 R.disagree('same_funcs', dict(basis=label, fmt=fmt, element=z), a['same'], py, note='verified checker vs harness oracle on (source, read-back)')
         R.extra['pairs_judged_by_verified_checker'] = len(pairs)
+    # the NWChem token-level models against the real writer and reader
+    for label, what, rq, exp in [x for x in nw if x[2] is None]:
+        raise DriverError('nwchem harness: %s' % exp)
+    if ctx.model_ok and nw:
+        ans = drive([rq for (_, _, rq, _) in nw])
+        nread = nok = 0
+        for a, (label, what, rq, exp) in zip(ans, nw):
+            if 'drv_error' in a:
+                raise DriverError(a['drv_error'])
+            R.ev()
+            if what == 'write':
+                R.count('nwchem-model:write')
+                if a['lines'] != exp:
+                    k = next((i for i, (x, y) in enumerate(zip(a['lines'], exp)) if x != y), min(len(a['lines']), len(exp)))
+                    R.disagree('nwchem_write', dict(basis=label), str(a['lines'][k:k + 2])[:200], str(exp[k:k + 2])[:200], note='token lines of the electron section differ at line %d' % k)
+            else:
+                nread += 1
+                R.count('nwchem-model:%s:%s' % (what, exp[0]))
+                got = ('ok', a['ok']) if 'ok' in a else ('err', a['raise'])
+                if got[0] != exp[0] or (got[0] == 'ok' and got[1] != exp[1]):
+                    R.disagree('nwchem_read', dict(basis=label, stream=what), str(got)[:200], str(exp)[:200], note='reader model vs readers/nwchem.py on the same lines')
+                elif got[0] == 'ok':
+                    nok += 1
+        R.extra['nwchem_streams_read_by_model_and_reader'] = nread
+        R.extra['nwchem_streams_accepted_by_both'] = nok
     return R
 
 
